@@ -572,7 +572,28 @@ def m_to_string(interp, args, info):
 @model("std::convert::AsRef::as_ref")
 def m_as_ref(interp, args, info):
     # generic `S: AsRef<str>`: the abstract argument already is the string it denotes
+    v = interp.strip(args[0])
+    if isinstance(v, (Tok, StrV)):
+        return v
     return args[0]
+
+
+@model("core::str::<impl str>::as_ptr")
+def m_str_as_ptr(interp, args, info):
+    s = interp.strip(args[0])
+    if isinstance(s, Tok) and s.kind == "T":
+        return Tok("A", "ptr(%s)" % s.name, None, dom="addr")
+    raise Inconclusive("str::as_ptr on %r" % (s,), interp.where())
+
+
+@model("into:(usize, usize)->miette::SourceSpan")
+def m_into_span(interp, args, info):
+    return Adt("miette::SourceSpan", 0, (args[0][0], args[0][1]))
+
+
+@model("miette::SourceSpan::offset")
+def m_span_offset(interp, args, info):
+    return interp.strip(args[0]).fields[0]
 
 
 # --------------------------------------------------------------------------- iterators
@@ -1378,3 +1399,18 @@ def m_str_len(interp, args, info):
 @model("core::str::<impl str>::parse")
 def m_str_parse(interp, args, info):
     return interp.policy.str_parse(interp, args, info)
+
+
+@model("miette::LabeledSpan::new_with_span")
+def m_labeled_span(interp, args, info):
+    return Adt("miette::LabeledSpan", 0, (args[0], args[1]))
+
+
+@model("std::iter::once")
+def m_iter_once(interp, args, info):
+    return IterV("vec", ListV([args[0]]))
+
+
+@model("into:&str->std::string::String#")
+def _unused(interp, args, info):
+    return args[0]
